@@ -149,9 +149,9 @@ theorem engine_able (k : FuncKind) (countMask sorted byDask dtypeGiven hasNumbag
     · obtain ⟨⟨hh, hk⟩, hd⟩ := h3
       exact ⟨hh, hk, hd⟩
 
-theorem entryGuards_clean (k : FuncKind) (engine : Option Engine) (dtypeGiven qGiven byDask arrDask : Bool) :
-    entryGuards k engine dtypeGiven qGiven byDask arrDask ≠ .err .assertion ∧
-    entryGuards k engine dtypeGiven qGiven byDask arrDask ≠ .err .other := by
+theorem entryGuards_clean (k : FuncKind) (engine : Option Engine) (dtypeGiven dtypeInt qGiven byDask arrDask : Bool) :
+    entryGuards k engine dtypeGiven dtypeInt qGiven byDask arrDask ≠ .err .assertion ∧
+    entryGuards k engine dtypeGiven dtypeInt qGiven byDask arrDask ≠ .err .other := by
   unfold entryGuards
   repeat' split
   all_goals simp
